@@ -455,7 +455,12 @@ func (e *kvElection) attemptPriorityTakeover(payloadBytes []byte) error {
 
 	var currentPayload leadershipPayload
 	if err := json.Unmarshal(entry.Value(), &currentPayload); err != nil {
-		return e.attemptAcquire()
+		// The record is not a payload we understand, so there is no priority
+		// to compare with and nothing to take over. (This used to call
+		// attemptAcquire again, whose failed Create calls this function
+		// again: unbounded mutual recursion, two store operations per cycle,
+		// for as long as the record stays unparsable.)
+		return fmt.Errorf("cannot parse current leadership record: %w", err)
 	}
 
 	if e.cfg.Priority <= currentPayload.Priority {
